@@ -5,6 +5,11 @@ import BronVerif.Lemmas.PolyList
 import BronVerif.Lemmas.PolyLagrange
 import BronVerif.Lemmas.PolyMatrix
 import BronVerif.Lemmas.PolyBirkhoff
+import BronVerif.Lemmas.PolyDeriv
+import BronVerif.Lemmas.PolyBirkhoffExp
+import BronVerif.Lemmas.GaussJordanDet
+import BronVerif.Props.C20
+import Mathlib.Tactic.NormNum.Prime
 /-!
 # C20, polynomial half — property theorems
 
@@ -20,7 +25,7 @@ arbitrary `Nodup` lists: unsorted, large, including or excluding `0`.
 namespace BronVerif.Props.C20Poly
 open BronVerif BronVerif.LinAlg BronVerif.Poly Polynomial
 open BronVerif.Lemmas.PolyList BronVerif.Lemmas.PolyLagrange BronVerif.Lemmas.PolyMatrix
-open BronVerif.Lemmas.PolyBirkhoff
+open BronVerif.Lemmas.PolyBirkhoff BronVerif.Lemmas.PolyDeriv BronVerif.Lemmas.PolyBirkhoffExp
 open scoped BigOperators
 
 section Scalar
@@ -32,6 +37,26 @@ theorem eval_eq (cs : List F) (x : F) :
   eval_eq_toPoly cs x
 
 example : Poly.eval ([1, 2, 3] : List ℚ) 2 = 17 := by norm_num [Poly.eval]
+
+/-- **evaluation is linear** (`Polynomial.Add`): `(a + b)(x) = a(x) + b(x)` for coefficient lists of
+any two lengths -/
+theorem eval_add (a b : List F) (x : F) :
+    Poly.eval (Poly.add a b) x = Poly.eval a x + Poly.eval b x := by
+  simp only [eval_eq_toPoly, toPoly_add, Polynomial.eval_add]
+
+/-- (`Polynomial.ScalarMul` / `ScalarOp`): `(a · s)(x) = a(x) · s` -/
+theorem eval_smul (a : List F) (s x : F) : Poly.eval (Poly.smul a s) x = Poly.eval a x * s := by
+  simp only [eval_eq_toPoly, toPoly_smul, Polynomial.eval_mul, Polynomial.eval_C]
+
+/-- evaluation is multiplicative (`Polynomial.Mul`, schoolbook product) -/
+theorem eval_mulPoly (a b : List F) (x : F) :
+    Poly.eval (Poly.mulPoly a b) x = Poly.eval a x * Poly.eval b x := by
+  simp only [eval_eq_toPoly, toPoly_mulPoly, Polynomial.eval_mul]
+
+example : Poly.eval (Poly.add ([1, 2, 3] : List ℚ) [5, 1]) 2 = 17 + 7 := by
+  rw [eval_add]; norm_num [Poly.eval]
+example : Poly.mulPoly ([1, 2] : List ℚ) [3, 0, 1] = [3, 6, 1, 2] := by
+  norm_num [Poly.mulPoly, Poly.add]
 
 variable [DecidableEq F]
 
@@ -100,6 +125,34 @@ example : ∃ b, basisAt ([3, 0, 5] : List ℚ) 7 = some b ∧ b.sum = 1 := by
   refine ⟨_, basisAt_eq_basis (by decide) 7, ?_⟩
   exact basisAt_sum_one _ 7 (by decide) (by simp) _ (basisAt_eq_basis (by decide) 7)
 
+/-- **`Polynomial.Derivative` is the formal derivative**: the returned coefficient list (after the Go
+code's trimming to the degree, `[0]` for constants) denotes Mathlib's `derivative` of the input -/
+theorem derivative_eval (cs : List F) (x : F) :
+    Poly.eval (Poly.deriv cs) x
+      = (derivative (∑ i ∈ Finset.range cs.length, C (cs.getD i 0) * X ^ i : F[X])).eval x := by
+  rw [eval_eq_toPoly, toPoly_deriv]; rfl
+
+/-- iterated: `Derivative` applied `j` times is the `j`-th formal derivative -/
+theorem iterDeriv_eval (j : ℕ) (cs : List F) (x : F) :
+    Poly.eval (iterDeriv j cs) x
+      = (derivative^[j] (∑ i ∈ Finset.range cs.length, C (cs.getD i 0) * X ^ i : F[X])).eval x := by
+  rw [eval_eq_toPoly, toPoly_iterDeriv]; rfl
+
+/-- the derivative is linear and obeys the product rule on coefficient lists (through `toPoly`) -/
+theorem derivative_add_mul (a b : List F) (x : F) :
+    Poly.eval (Poly.deriv (Poly.add a b)) x = Poly.eval (Poly.deriv a) x + Poly.eval (Poly.deriv b) x ∧
+    Poly.eval (Poly.deriv (Poly.mulPoly a b)) x
+      = Poly.eval (Poly.deriv a) x * Poly.eval b x + Poly.eval a x * Poly.eval (Poly.deriv b) x := by
+  simp only [eval_eq_toPoly, toPoly_deriv, toPoly_add, toPoly_mulPoly, derivative_add, derivative_mul,
+    Polynomial.eval_add, Polynomial.eval_mul, and_self]
+
+example : Poly.deriv ([5, 0, 1, 0] : List ℚ) = [0, 2] := by
+  simp [Poly.deriv, trim, derivCoeffs, Poly.nsmul, List.zipIdx]; norm_num
+
+/-- **`internal.Phi(t, x, j)`** is `(d/dx)^j Xᵗ` at `x` (in particular `0` for `j > t`) -/
+theorem phi_eq_iterate_derivative (t : ℕ) (x : F) (j : ℕ) :
+    phi t x j = (derivative^[j] (X ^ t : F[X])).eval x := phi_eq t x j
+
 omit [DecidableEq F] in
 /-- Vandermonde: a solution `c` of the model's Vandermonde system `V(xs) · c = ys` (the system
 `vandermonde.Interpolate` hands to `SolveRight`) is the coefficient list of the Lagrange interpolant -/
@@ -141,15 +194,15 @@ example : mulVec (([3, 0, 5] : List ℚ).map fun x => powers x 3) [5, 0, 1]
   (vandermonde_recovers ([3, 0, 5] : List ℚ) [5, 0, 1] (by decide) rfl).1
 
 /-- full statement for `vandermonde.Interpolate` (model `vandermondeInterpolate`, which calls the
-Gauss–Jordan model `LinAlg.solveRight`) -/
+Gauss–Jordan model `LinAlg.solveRight`); proved below as `vandermonde_interpolate_recovers` -/
 def vandermonde_interpolate_statement (F : Type) [Field F] [DecidableEq F] : Prop :=
   ∀ (xs cs : List F), xs.Nodup → xs ≠ [] → cs.length = xs.length →
     vandermondeInterpolate xs (xs.map (Poly.eval cs)) = .ok cs
 
-/-- PARTIAL: `vandermonde_interpolate_statement` relative to soundness and completeness of
-`LinAlg.solveRight` on this system (these are the Gauss–Jordan theorems of `Props/C20.lean`,
-proved separately; they enter here as hypotheses `hsound`, `hcomplete`).  What is proved here
-unconditionally is the interpolation content: `vandermonde_recovers`. -/
+/-- `vandermonde_interpolate_statement` relative to soundness and completeness of `LinAlg.solveRight`
+on this system (hypotheses `hsound`, `hcomplete`).  Kept as the lemma from which the full statement
+`vandermonde_interpolate_recovers` is obtained by discharging both hypotheses with the Gauss–Jordan
+theorems `C20.solveRight_sound` / `C20.solveRight_complete`; nothing is missing any more. -/
 theorem vandermonde_interpolate_partial (xs cs : List F) (hnd : xs.Nodup) (hne : xs ≠ [])
     (hcs : cs.length = xs.length)
     (hsound : ∀ c, solveRight (xs.map fun x => powers x xs.length) xs.length (xs.map (Poly.eval cs)) = some c →
@@ -167,23 +220,115 @@ theorem vandermonde_interpolate_partial (xs cs : List F) (hnd : xs.Nodup) (hne :
     obtain ⟨h1, h2⟩ := hsound c h
     simp only [huniq c h1 h2]
 
+omit [DecidableEq F] in
+theorem length_powers (x : F) (n : ℕ) : (powers x n).length = n := by
+  induction n with
+  | zero => rfl
+  | succ n ih => simp [powers, ih]
+
+/-- **`vandermonde.Interpolate` recovers the polynomial** (`vandermonde_interpolate_statement`): on
+distinct nodes (any order, any size, `0` allowed) and the evaluations of a coefficient list of length
+`n = #nodes`, the model — Vandermonde matrix handed to the mirrored Gauss–Jordan `solveRight` —
+returns exactly that coefficient list.  The hypotheses of `vandermonde_interpolate_partial` are
+discharged by `C20.solveRight_sound` / `C20.solveRight_complete`. -/
+theorem vandermonde_interpolate_recovers : vandermonde_interpolate_statement F := by
+  intro xs cs hnd hne hcs
+  have hW : ∀ row ∈ xs.map (fun x => powers x xs.length), row.length = xs.length := by
+    intro row h
+    obtain ⟨x, _, rfl⟩ := List.mem_map.mp h
+    exact length_powers x _
+  exact vandermonde_interpolate_partial xs cs hnd hne hcs
+    (fun c h => C20.solveRight_sound _ _ _ hW (by simp) c h)
+    (fun h => C20.solveRight_complete _ _ _ hW (by simp) h)
+
+example : vandermondeInterpolate ([3, 0, 5] : List ℚ) (([3, 0, 5] : List ℚ).map (Poly.eval [5, 0, 1]))
+    = .ok [5, 0, 1] :=
+  vandermonde_interpolate_recovers _ _ (by decide) (by simp) rfl
+
+/-- the coefficient list (length `n`) of a polynomial of degree `< n` -/
+noncomputable def coeffList (p : F[X]) (n : ℕ) : List F := (List.range n).map p.coeff
+
+omit [DecidableEq F] in
+theorem toPoly_coeffList (p : F[X]) (n : ℕ) (h : p.degree < n) : toPoly (coeffList p n) = p := by
+  ext i
+  rw [coeff_toPoly]
+  unfold coeffList
+  by_cases hi : i < n
+  · rw [getD_map_range _ _ hi]
+  · rw [getD_of_le _ (by simpa using not_lt.mp hi)]
+    exact (coeff_eq_zero_of_degree_lt (lt_of_lt_of_le h (by exact_mod_cast not_lt.mp hi))).symm
+
+/-- **`vandermonde.Interpolate` at distinct nodes returns the unique interpolating polynomial of degree
+`< n`**, for arbitrary values: the call succeeds, the returned list has `n` coefficients, it is the
+coefficient list of Mathlib's `Lagrange.interpolate` (so it passes through every point), and any
+other coefficient list of length `n` through the points equals it. -/
+theorem vandermonde_interpolate_unique (xs ys : List F) (hnd : xs.Nodup) (hne : xs ≠ [])
+    (hlen : ys.length = xs.length) :
+    ∃ c, vandermondeInterpolate xs ys = .ok c ∧ c.length = xs.length ∧
+      toPoly c = Lagrange.interpolate (Finset.range xs.length) (fun j => xs.getD j 0)
+        (fun j => ys.getD j 0) ∧
+      (∀ i, i < xs.length → Poly.eval c (xs.getD i 0) = ys.getD i 0) ∧
+      ∀ c' : List F, c'.length = xs.length →
+        (∀ i, i < xs.length → Poly.eval c' (xs.getD i 0) = ys.getD i 0) → c' = c := by
+  set p := Lagrange.interpolate (Finset.range xs.length) (fun j => xs.getD j 0)
+    (fun j => ys.getD j 0) with hp
+  have hdeg : p.degree < xs.length := by
+    have := Lagrange.degree_interpolate_lt (s := Finset.range xs.length)
+      (v := fun j => xs.getD j 0) (fun j => ys.getD j 0) (nodeFn_injOn hnd)
+    rw [Finset.card_range] at this
+    exact this
+  set cs := coeffList p xs.length with hcs
+  have hcl : cs.length = xs.length := by simp [hcs, coeffList]
+  have htp : toPoly cs = p := toPoly_coeffList p _ hdeg
+  have hev : ∀ i, i < xs.length → Poly.eval cs (xs.getD i 0) = ys.getD i 0 := by
+    intro i hi
+    rw [eval_eq_toPoly, htp, hp]
+    exact Lagrange.eval_interpolate_at_node (fun j => ys.getD j 0) (nodeFn_injOn hnd)
+      (Finset.mem_range.mpr hi)
+  have hys : ys = xs.map (Poly.eval cs) := by
+    apply List.ext_getElem (by simp [hlen])
+    intro i h1 h2
+    have hi : i < xs.length := by simpa using h2
+    have := hev i hi
+    simp only [List.getD_eq_getElem?_getD, List.getElem?_eq_getElem hi, List.getElem?_eq_getElem h1,
+      Option.getD_some] at this
+    simp [this]
+  refine ⟨cs, ?_, hcl, htp, hev, ?_⟩
+  · rw [hys]; exact vandermonde_interpolate_recovers xs cs hnd hne hcl
+  · intro c' hc' hev'
+    apply toPoly_injective (hc'.trans hcl.symm)
+    rw [htp, hp]
+    apply Lagrange.eq_interpolate_of_eval_eq _ (nodeFn_injOn hnd)
+    · have := degree_toPoly_lt c'; rw [hc'] at this; simpa using this
+    · intro i hi
+      have := hev' i (by simpa using hi)
+      rw [eval_eq_toPoly] at this
+      exact this
+
+example : ∃ c, vandermondeInterpolate ([3, 0, 5] : List ℚ) [1, 1, 4] = .ok c ∧ c.length = 3 := by
+  obtain ⟨c, h, hl, _⟩ := vandermonde_interpolate_unique ([3, 0, 5] : List ℚ) [1, 1, 4] (by decide)
+    (by simp) rfl
+  exact ⟨c, h, hl⟩
+
 /-- full statement for `birkhoff.Interpolate` (on sorted nodes, with the model's determinant routine
 `LinAlg.det`): a returned coefficient list has `n` entries and satisfies every derivative
-constraint `(d/dx)^{jᵣ} p (xᵣ) = yᵣ` -/
+constraint `(d/dx)^{jᵣ} p (xᵣ) = yᵣ`; proved below as `birkhoff_cramer` (and for the unsorted public
+entry point as `birkhoff_interpolate_sound`) -/
 def birkhoff_cramer_statement (F : Type) [Field F] [DecidableEq F] : Prop :=
   ∀ (xs : List F) (js : List ℕ) (ys c : List F), js.length = xs.length → ys.length = xs.length →
     birkhoffSorted LinAlg.det xs js ys = .ok c →
     c.length = xs.length ∧
       ∀ r, r < xs.length → Poly.eval (iterDeriv (js.getD r 0) c) (xs.getD r 0) = ys.getD r 0
 
-/-- PARTIAL (Cramer's rule, `Matrix.mulVec_cramer`): if the determinant routine used by the model
+/-- (Cramer's rule, `Matrix.mulVec_cramer`; relative to an abstract determinant routine `detF`): if the determinant routine used by the model
 computes `Matrix.det` on `n × n` list matrices (hypothesis `hdet`; for `LinAlg.det` this is the
 forward-elimination theorem of `Props/C20.lean`), then whenever `birkhoff.Interpolate` (model
 `birkhoffSorted`) returns coefficients `c`, they solve the Birkhoff–Vandermonde system
 `B(xs, js) · c = ys`, whose row `r` is `(Phi(0,xᵣ,jᵣ), …, Phi(n-1,xᵣ,jᵣ))`.
-Missing for `birkhoff_cramer_statement`: `hdet` for `LinAlg.det`, and the identification of a row
-of `B` with the functional `c ↦ (d/dx)^{jᵣ} (Σ cₖ Xᵏ) (xᵣ)` (the harness/driver check that identity on
-every answer by direct evaluation instead). -/
+Kept as the lemma behind `birkhoff_cramer`, which supplies the two ingredients that were missing
+here: `hdet` for the executable `LinAlg.det` (`det_computes_matrix_det`, from
+`Lemmas/GaussJordanDet.lean`) and the identification of a row of `B` with the functional
+`c ↦ (d/dx)^{jᵣ} (Σ cₖ Xᵏ) (xᵣ)` (`Lemmas/PolyDeriv.lean`: `mulVec_birkhoffMatrix`). -/
 theorem birkhoff_cramer_partial (detF : Mat F → F) (xs : List F) (js : List ℕ) (ys c : List F)
     (hj : js.length = xs.length) (hy : ys.length = xs.length)
     (hdet : ∀ m : Mat F, m.length = xs.length → (∀ row ∈ m, row.length = xs.length) →
@@ -210,6 +355,134 @@ example : ∃ c, birkhoffSorted (fun m => entry m 0 0 * entry m 1 1 - entry m 0 
     ([2, 5] : List ℚ) [0, 1] [7, 3] = .ok c := ⟨_, by
   simp [birkhoffSorted, birkhoffMatrix, phi, iterDeriv, deriv, trim, derivCoeffs, Poly.eval, Poly.nsmul,
     entry, setColumn]; rfl⟩
+
+/-- the model's own determinant routine satisfies the hypothesis `hdet` of `birkhoff_cramer_partial`
+(`Lemmas/GaussJordanDet.lean`: forward elimination with sign tracking computes `Matrix.det`) -/
+theorem det_computes_matrix_det (n : ℕ) (m : Mat F) (hl : m.length = n)
+    (hW : ∀ row ∈ m, row.length = n) : LinAlg.det m = (LinAlg.toMatrix n m).det := by
+  subst hl
+  exact det_eq_matrix_det m hW
+
+/-- **Birkhoff / Cramer** (`birkhoff_cramer_statement`): with the model's own executable determinant
+`LinAlg.det`, whenever `birkhoff.Interpolate` (on sorted nodes) returns coefficients, there are `n` of
+them and every derivative constraint `(d/dx)^{jᵣ} p (xᵣ) = yᵣ` holds — for every node/order pattern
+(the returned-`ok` case is exactly "the Birkhoff matrix has non-zero determinant"). -/
+theorem birkhoff_cramer : birkhoff_cramer_statement F := by
+  intro xs js ys c hj hy hok
+  obtain ⟨hc, hmul⟩ := birkhoff_cramer_partial LinAlg.det xs js ys c hj hy
+    (fun m hl hW => det_computes_matrix_det _ m hl hW) hok
+  refine ⟨hc, ?_⟩
+  intro r hr
+  rw [← hc, mulVec_birkhoffMatrix] at hmul
+  have := congrArg (fun l => l.getD r 0) hmul
+  simp only [List.getD_eq_getElem?_getD, List.getElem?_zipWith] at this ⊢
+  rw [List.getElem?_eq_getElem hr, List.getElem?_eq_getElem (hj ▸ hr)] at this ⊢
+  simpa using this
+
+/-- `birkhoff.Interpolate` returns a result exactly when the determinant (the model's, hence Mathlib's)
+of the Birkhoff matrix is non-zero -/
+theorem birkhoffSorted_ok_iff (xs : List F) (js : List ℕ) (ys : List F) :
+    (∃ c, birkhoffSorted LinAlg.det xs js ys = .ok c) ↔
+      LinAlg.det (birkhoffMatrix xs js xs.length) ≠ 0 := by
+  unfold birkhoffSorted
+  simp only
+  split
+  · rename_i h; simp [h]
+  · rename_i h; simp [h]
+
+/-- **Birkhoff recovers the polynomial**: if the Birkhoff matrix of the (sorted) nodes is non-singular
+and the values are the prescribed derivatives of a coefficient list `cs` of length `n`, then
+`birkhoff.Interpolate` returns exactly `cs` (Cramer's solution solves the system, and a non-singular
+system has only one solution). -/
+theorem birkhoff_recovers (xs : List F) (js : List ℕ) (cs : List F) (hj : js.length = xs.length)
+    (hcs : cs.length = xs.length)
+    (hdet : LinAlg.det (birkhoffMatrix xs js xs.length) ≠ 0) :
+    birkhoffSorted LinAlg.det xs js
+      (List.zipWith (fun x j => Poly.eval (iterDeriv j cs) x) xs js) = .ok cs := by
+  set ys := List.zipWith (fun x j => Poly.eval (iterDeriv j cs) x) xs js with hys
+  have hyl : ys.length = xs.length := by simp [hys, hj]
+  obtain ⟨c, hok⟩ := (birkhoffSorted_ok_iff xs js ys).mpr hdet
+  obtain ⟨hc, hmul⟩ := birkhoff_cramer_partial LinAlg.det xs js ys c hj hyl
+    (fun m hl hW => det_computes_matrix_det _ m hl hW) hok
+  have hmul' : mulVec (birkhoffMatrix xs js xs.length) cs = ys := by
+    rw [← hcs, mulVec_birkhoffMatrix]
+  rw [hok]
+  congr 1
+  -- both solve the non-singular system
+  have hBl : (birkhoffMatrix xs js xs.length).length = xs.length := by simp [birkhoffMatrix, hj]
+  have hBW : ∀ row ∈ birkhoffMatrix xs js xs.length, row.length = xs.length := by
+    intro row h
+    unfold birkhoffMatrix at h
+    obtain ⟨i, hi, rfl⟩ := List.mem_iff_getElem.mp h
+    rw [List.getElem_zipWith]; simp
+  have hd : (LinAlg.toMatrix xs.length (birkhoffMatrix xs js xs.length)).det ≠ 0 := by
+    rw [← det_computes_matrix_det _ _ hBl hBW]; exact hdet
+  have h1 := (mulVec_eq_iff _ xs.length c ys hc (by rw [hBl, hyl])).mp hmul
+  have h2 := (mulVec_eq_iff _ xs.length cs ys hcs (by rw [hBl, hyl])).mp hmul'
+  rw [hBl] at h1 h2
+  have hinj := Matrix.mulVec_injective_of_det_ne_zero hd
+  have hv : toVec xs.length c = toVec xs.length cs := hinj (h1.trans h2.symm)
+  refine list_eq_of_getD c cs (hc.trans hcs.symm) fun i hi => ?_
+  exact congrFun hv ⟨i, hc ▸ hi⟩
+
+example : birkhoffSorted LinAlg.det ([2, 5] : List ℚ) [0, 1]
+    (List.zipWith (fun x j => Poly.eval (iterDeriv j [7, 3]) x) [2, 5] [0, 1]) = .ok [7, 3] :=
+  birkhoff_recovers _ _ _ rfl rfl (by
+    rw [det_computes_matrix_det 2 _ rfl (by decide)]
+    simp [LinAlg.toMatrix, Matrix.det_fin_two, birkhoffMatrix, phi, iterDeriv, deriv, trim,
+      derivCoeffs, Poly.eval, Poly.nsmul, entry])
+
+/-- the public entry point (unsorted nodes; `internal.SortNodes` by `(x, j)` first): a returned
+coefficient list has `n` entries and satisfies the derivative constraint of **every input node**,
+whatever the order in which the nodes were given -/
+theorem birkhoff_interpolate_sound (key : F → ℕ) (xs : List F) (js : List ℕ) (ys c : List F)
+    (hok : birkhoffInterpolate LinAlg.det key xs js ys = .ok c) :
+    c.length = xs.length ∧
+      ∀ i, i < xs.length → Poly.eval (iterDeriv (js.getD i 0) c) (xs.getD i 0) = ys.getD i 0 := by
+  unfold birkhoffInterpolate at hok
+  split at hok
+  · cases hok
+  rename_i hlen
+  split at hok
+  · cases hok
+  have hlen : xs.length = js.length ∧ xs.length = ys.length := by
+    by_contra hc; exact hlen (by tauto)
+  simp only at hok
+  set s := sortNodes key (List.zip xs (List.zip js ys)) with hs
+  have hperm : s.Perm (List.zip xs (List.zip js ys)) := by
+    rw [hs]; unfold sortNodes; exact List.mergeSort_perm _ _
+  have hsl : s.length = xs.length := by
+    rw [hperm.length_eq]; simp [← hlen.1, ← hlen.2]
+  obtain ⟨hc, hall⟩ := birkhoff_cramer (s.map (·.1)) (s.map (·.2.1)) (s.map (·.2.2)) c (by simp)
+    (by simp) hok
+  rw [List.length_map, hsl] at hc hall
+  refine ⟨hc, ?_⟩
+  intro i hi
+  have hmem : (xs[i], js[i]'(hlen.1 ▸ hi), ys[i]'(hlen.2 ▸ hi)) ∈ s := by
+    rw [hperm.mem_iff]
+    refine List.mem_iff_getElem.mpr ⟨i, by simp [← hlen.1, ← hlen.2, hi], ?_⟩
+    simp
+  obtain ⟨r, hr, hsr⟩ := List.mem_iff_getElem.mp hmem
+  have := hall r (hsl ▸ hr)
+  simp only [List.getD_eq_getElem?_getD, List.getElem?_map, List.getElem?_eq_getElem hr, hsr,
+    Option.map_some, Option.getD_some] at this
+  simp only [List.getD_eq_getElem?_getD, List.getElem?_eq_getElem hi,
+    List.getElem?_eq_getElem (hlen.1 ▸ hi), List.getElem?_eq_getElem (hlen.2 ▸ hi), Option.getD_some]
+  exact this
+
+section
+local instance : Fact (Nat.Prime 7) := ⟨by norm_num⟩
+/-- unsorted input `(5, 1, 3), (2, 0, 6)` over `ZMod 7`: `p(2) = 6`, `p'(5) = 3` gives `p = 3X` -/
+example : birkhoffInterpolate LinAlg.det ZMod.val ([5, 2] : List (ZMod 7)) [1, 0] [3, 6] = .ok [0, 3] := by
+  have hs : sortNodes ZMod.val (List.zip [5, 2] (List.zip [1, 0] [3, 6]))
+      = [((2 : ZMod 7), 0, (6 : ZMod 7)), (5, 1, 3)] := by
+    simp [sortNodes, List.mergeSort, List.merge, List.MergeSort.Internal.splitInTwo]
+    decide
+  unfold birkhoffInterpolate
+  rw [if_neg (by decide), if_neg (by decide)]
+  simp only [hs]
+  decide +kernel
+end
 
 end Scalar
 
@@ -240,6 +513,91 @@ example : interpolateExpAt ([3, 0, 5] : List ℚ) (([3, 0, 5] : List ℚ).map fu
     = .ok ((X ^ 2 + C 5 : ℚ[X]).eval 7 • (2 : ℚ)) :=
   lagrange_exponent_recovers _ _ _ _ (by decide)
     (lt_of_le_of_lt (degree_add_le _ _) (by simp; norm_num))
+
+omit [DecidableEq F] in
+/-- **`ModuleValuedPolynomial.Eval` commutes with `LiftPolynomial`**: `(f • g)(x) = f(x) • g` -/
+theorem evalG_lift (cs : List F) (g : G) (x : F) :
+    evalG (liftPoly cs g) x = Poly.eval cs x • g := evalG_liftPoly cs g x
+
+omit [DecidableEq F] in
+/-- **`ModuleValuedPolynomial.Derivative` commutes with `LiftPolynomial`**: it is the lift of the
+coefficient-wise derivative, hence evaluates to `f'(x) • g` -/
+theorem derivG_lift (cs : List F) (g : G) (x : F) :
+    derivG (liftPoly cs g) = liftPoly (if cs.length ≤ 1 then [0] else derivCoeffs cs) g ∧
+    evalG (derivG (liftPoly cs g)) x
+      = (derivative (∑ i ∈ Finset.range cs.length, C (cs.getD i 0) * X ^ i : F[X])).eval x • g := by
+  refine ⟨derivG_liftPoly cs g, ?_⟩
+  rw [derivG_liftPoly, evalG_liftPoly, eval_eq_toPoly]
+  congr 2
+  split
+  · rename_i h
+    rw [toPoly_singleton, map_zero]
+    exact (toPoly_of_length_le_one cs h).symm
+  · exact toPoly_derivCoeffs cs
+
+example : evalG (liftPoly ([5, 0, 1] : List ℚ) (2 : ℚ)) (7 : ℚ) = Poly.eval ([5, 0, 1] : List ℚ) 7 • (2 : ℚ) :=
+  evalG_lift (F := ℚ) (G := ℚ) [5, 0, 1] 2 7
+
+/-- **Birkhoff in the exponent commutes with lifting** (sorted nodes): the cofactor expansion evaluated
+on lifted values `yᵣ • g` returns the lift of Cramer's rule on the scalars `yᵣ`, and fails exactly
+when the scalar routine fails (Laplace expansion `Matrix.det_succ_column` for the model's `det`). -/
+theorem birkhoffExpSorted_lift (xs : List F) (js : List ℕ) (ys : List F) (g : G)
+    (hj : js.length = xs.length) (hy : ys.length = xs.length) :
+    birkhoffExpSorted LinAlg.det xs js (ys.map fun y => y • g)
+      = (birkhoffSorted LinAlg.det xs js ys).map fun c => c.map fun v => v • g := by
+  unfold birkhoffExpSorted birkhoffSorted
+  simp only
+  split
+  · rfl
+  · show Except.ok _ = Except.ok _
+    congr 1
+    show List.map _ _ = List.map _ (List.map _ _)
+    rw [List.map_map]
+    apply List.map_congr_left
+    intro c hc
+    have hc : c < xs.length := List.mem_range.mp hc
+    simp only [Function.comp, gdot_map_smul, smul_smul]
+    congr 1
+    have hBl : (birkhoffMatrix xs js xs.length).length = xs.length := by simp [birkhoffMatrix, hj]
+    have hBW : ∀ row ∈ birkhoffMatrix xs js xs.length, row.length = xs.length := by
+      intro row h
+      unfold birkhoffMatrix at h
+      obtain ⟨i, hi, rfl⟩ := List.mem_iff_getElem.mp h
+      rw [List.getElem_zipWith]; simp
+    rw [det_setColumn_eq_cofactor_sum LinAlg.det (fun n m hl hW => det_computes_matrix_det n m hl hW)
+      _ ys xs.length c hBl hBW hy hc, mul_comm]
+
+/-- the public entry point: `birkhoff.InterpolateInExponent` on lifted values is the lift of
+`birkhoff.Interpolate` (same sorting, same refusals) -/
+theorem birkhoffExpInterpolate_lift (key : F → ℕ) (xs : List F) (js : List ℕ) (ys : List F) (g : G) :
+    birkhoffExpInterpolate LinAlg.det key xs js (ys.map fun y => y • g)
+      = (birkhoffInterpolate LinAlg.det key xs js ys).map fun c => c.map fun v => v • g := by
+  unfold birkhoffExpInterpolate birkhoffInterpolate
+  simp only [List.length_map]
+  split
+  · rfl
+  split
+  · rfl
+  set f : F × ℕ × F → F × ℕ × G := Prod.map id (Prod.map id fun y => y • g) with hf
+  have hzip : List.zip xs (List.zip js (ys.map fun y => y • g)) = (List.zip xs (List.zip js ys)).map f := by
+    rw [hf, List.zip_map_right, List.zip_map_right]
+  have hsort : sortNodes key (List.zip xs (List.zip js (ys.map fun y => y • g)))
+      = (sortNodes key (List.zip xs (List.zip js ys))).map f := by
+    rw [hzip]; unfold sortNodes
+    exact (List.map_mergeSort
+      (r := fun a b : F × ℕ × F => decide (key a.1 < key b.1 ∨ (key a.1 = key b.1 ∧ a.2.1 ≤ b.2.1)))
+      (s := fun a b : F × ℕ × G => decide (key a.1 < key b.1 ∨ (key a.1 = key b.1 ∧ a.2.1 ≤ b.2.1)))
+      (f := f) (fun a _ b _ => rfl)).symm
+  simp only [hsort, List.map_map]
+  have h1 : ((fun t : F × ℕ × G => t.1) ∘ f) = fun t => t.1 := rfl
+  have h2 : ((fun t : F × ℕ × G => t.2.1) ∘ f) = fun t => t.2.1 := rfl
+  have h3 : ((fun t : F × ℕ × G => t.2.2) ∘ f) = (fun y => y • g) ∘ fun t => t.2.2 := rfl
+  rw [h1, h2, h3, ← List.map_map]
+  exact birkhoffExpSorted_lift _ _ _ g (by simp) (by simp)
+
+example : birkhoffExpSorted LinAlg.det ([2, 5] : List ℚ) [0, 1] (([13, 3] : List ℚ).map fun y => y • (2 : ℚ))
+    = (birkhoffSorted LinAlg.det ([2, 5] : List ℚ) [0, 1] [13, 3]).map fun c => c.map fun v => v • (2 : ℚ) :=
+  birkhoffExpSorted_lift _ _ _ _ rfl rfl
 
 omit [DecidableEq F] in
 /-- `mat.LeftAction` commutes with `mat.Lift`: `A · (R • g) = (A · R) • g` (any shapes; short rows
